@@ -35,7 +35,7 @@ def run(ctx):
     ctx.distinct |= {("ble_calls", i) for i in range(res["n"])}
     ctx.extra["reached_ble_calls"] = res["reach"]
     for f in res["findings"]:
-        if set(f["fields"]) & {"tm", "skipped_timer", "nh", "hang"}:
+        if set(f["fields"]) & {"tm", "skipped_timer", "nh", "hang", "dn", "not_enabled"}:   # (dn: a call ended with another call's response)
             ctx.violation(f"Session/ble_calls/{f['cause']}/{'+'.join(f['fields'])}", {"kind": "session-trace", "family": "ble_calls", **f})
         else:
             ctx.notes.append(f"operation-table mismatch (C16) seen in family ble_calls: {f['fields']}")
